@@ -125,6 +125,8 @@ func exoticDag(r *prng.R, n int) []Node {
 
 func genC02(c *Ctx) {
 	r := c.R
+	// histories on one caching hasher over chains at the depth limit (c02b.go)
+	genC02Chains(c)
 	n := c.Scale(700, 12000)
 	for i := 0; i < n; i++ {
 		size := 1 + r.Intn(14)
@@ -163,6 +165,10 @@ func genC02(c *Ctx) {
 			c.Emit("c07.parse", sx.Bytes(b), "real-block")
 		}
 	}
+	// histories of requests on one caching hasher (c02b.go)
+	genC02Histories(c)
+	// cells produced by the library's proof builder (c02b.go)
+	genC02Builders(c)
 }
 
 // oracle on the implementation: the reported hash does not depend on the
